@@ -235,7 +235,7 @@ fn pick_storage(c: &mut Case, n_types: u32, gc_types: &[u32]) -> Storage {
         }
     }
 }
-fn storage_dt(s: &Storage) -> DataType {
+pub fn storage_dt(s: &Storage) -> DataType {
     match s {
         Storage::I8 => DataType::I8,
         Storage::I16 => DataType::I16,
@@ -248,7 +248,7 @@ impl Driver for AddedTypes {
         "C13"
     }
     fn rule(&self) -> &'static str {
-        "tape -> valid G-static base (GC profile in half of the cases: explicit rec groups, duplicate identical function types, sub/final) -> sequence of 1-8 type additions through add_func_type, add_func_type_with_params, add_array_type(_with_params), add_struct_type(_with_params) (with and without supertype, finality, sharing), including exact repeats of earlier requests -> encode -> decode: (a) the type at each returned index is structurally the requested one, (b) an exact repeat returns the same index as the first request, (c) the first N decoded types and the input's rec-group structure are unchanged. Non-trivial: >=1 new type and >=1 repeat. Distinct = hash(base, requests)."
+        "tape -> valid G-static base (GC profile in half of the cases: explicit rec groups, duplicate identical function types, sub/final) -> sequence of 1-8 type additions through add_func_type, add_func_type_with_params, add_array_type(_with_params), add_struct_type(_with_params) (with and without supertype, finality, sharing), including exact repeats of earlier requests and near-twins (one attribute of an earlier request or of a type of the base changed: a field's mutability, finality, sharing, supertype, one parameter) -> encode -> decode: (a) the type at each returned index is structurally the requested one, (b) an exact repeat returns the same index as the first request, (c) the first N decoded types and the input's rec-group structure are unchanged. Non-trivial: >=1 new type and >=1 repeat. Distinct = hash(base, requests)."
     }
     fn tape_len(&self) -> usize {
         3072
@@ -280,11 +280,62 @@ impl Driver for AddedTypes {
         let mut log = vec![];
         let mut repeats = 0;
         let mut fresh = 0;
+        let mut twins = 0u64;
         for _ in 0..n_req {
             let repeat = !reqs.is_empty() && c.t.chance(1, 3);
+            // near-twin of an earlier request or of a type of the base: exactly one attribute
+            // differs (a field's mutability, finality, sharing, the supertype, one parameter),
+            // so the de-duplication key must tell them apart
+            let twin = !repeat && (!reqs.is_empty() || !gm.types.is_empty()) && c.t.chance(1, 3);
             let (ty, shared, how) = if repeat {
                 let r = c.t.pick(&reqs).clone();
                 (r.0, r.1, r.3)
+            } else if twin {
+                let (mut ty, mut shared) = if !reqs.is_empty() && c.t.bool() {
+                    let r = c.t.pick(&reqs).clone();
+                    (r.0, r.1)
+                } else {
+                    (c.t.pick(&gm.types).clone(), false)
+                };
+                let mut flipped = false;
+                match (c.t.below(4), &mut ty.comp) {
+                    (0, GComposite::Struct { fields }) if !fields.is_empty() => {
+                        let k = c.t.below(fields.len());
+                        fields[k].1 = !fields[k].1;
+                        flipped = true;
+                    }
+                    (0, GComposite::Array { mutable, .. }) => {
+                        *mutable = !*mutable;
+                        flipped = true;
+                    }
+                    (0, GComposite::Func { params, .. }) => {
+                        if params.is_empty() {
+                            params.push(VT::I32);
+                        } else {
+                            let k = c.t.below(params.len());
+                            params[k] = if params[k] == VT::I32 { VT::I64 } else { VT::I32 };
+                        }
+                        flipped = true;
+                    }
+                    (1, _) => {
+                        ty.is_final = !ty.is_final;
+                        flipped = true;
+                    }
+                    (2, _) => {
+                        shared = !shared;
+                        flipped = true;
+                    }
+                    _ => {}
+                }
+                if !flipped {
+                    if ty.supertype.is_some() {
+                        ty.supertype = None;
+                    } else {
+                        ty.is_final = !ty.is_final;
+                    }
+                }
+                twins += 1;
+                (ty, shared, "with_params".to_string())
             } else {
                 let with_params = c.t.bool();
                 let shared = with_params && c.t.chance(1, 5);
@@ -385,6 +436,7 @@ impl Driver for AddedTypes {
         c.class_n("requests", reqs.len() as u64);
         c.class_n("repeats", repeats);
         c.class_n("fresh", fresh);
+        c.class_n("near_twins", twins);
         if fresh >= 1 && repeats >= 1 {
             c.nontrivial(fnv(&bytes) ^ fnv(log.join("|").as_bytes()));
         }
